@@ -15,7 +15,7 @@
                             ancestor's) SuiteEnd, setup before tests before teardown;
      m_empty_steps = false  (live run, A.1 rule 5) a StepStart is never immediately followed by its own StepEnd;
      m_empty_steps = true   (replay of a loaded report) empty steps may occur.
-   live_mode = (false, false); replay_mode = (true, true).
+   live_mode = (false, false); replay_mode = (true, true); finished_replay_mode = (false, true).
 
    Rules, per event (state = phase, session setup/teardown state, every suite ever started with its state, every test ever
    started with its state, the open step of each (location, thread)):
@@ -42,6 +42,7 @@ From LCC Require Import Base.Util Model.Report Model.Events.
 Record mode := mkMode { m_unfinished : bool; m_empty_steps : bool }.
 Definition live_mode := mkMode false false.
 Definition replay_mode := mkMode true true.
+Definition finished_replay_mode := mkMode false true.   (* replay of a report in which everything has ended: every bracket closed *)
 
 Inductive phase := PNotStarted | PRunning | PEnded.
 Inductive rstate := RNone | ROpen | RClosed.
